@@ -62,7 +62,8 @@ Begin(n) ==
           [] op.op = "hostglobal" -> done([st EXCEPT !.globals = @ \o <<V(op.t, op.b)>>])
           [] op.op = "instantiate" ->
               LET s2 == Instantiate(M, st, op.binds)
-              IN  IF M.start >= 0
+              IN  IF ~SegmentsInBounds(M, s2, Len(s2.insts)) THEN [IdleCfg(st) EXCEPT !.status = "undefined"]
+                  ELSE IF M.start >= 0
                   THEN Invoke(M, IdleCfg(s2), Len(s2.insts), M.start, <<>>, FuelPerCall, MaxDepth)
                   ELSE done(s2)
           [] op.op = "call" ->
